@@ -576,6 +576,15 @@ class Interp:
                             v = x.aff[1] % (1 << j)
                             return AI(ty, v, v)
                     return AI(ty, 0, uc)
+                lowc = ~uc & full
+                if lowc & (lowc + 1) == 0 and x.lo >= 0:        # high mask !(2^j - 1): x with its low j bits cleared
+                    j = lowc.bit_length()
+                    if x.hi <= lowc:
+                        return AI(ty, 0, 0)
+                    r = AI(ty, (x.lo >> j) << j, (x.hi >> j) << j, x.dir if x.dir in ("up", "down", "c") else None)
+                    if self.exact(x):
+                        r.tag = ("hi", x.aff[0], x.aff[1], j)
+                    return r
                 if x.lo >= 0:
                     return AI(ty, 0, min(x.hi, uc))
             if op == "BitOr":
@@ -1726,6 +1735,38 @@ class Interp:
             if dst in TY and dst != "bool":
                 return self.cast(args[0], dst)
             raise Unsupported("%s to %r" % (name, dst))
+        last = name.split("::")[-1]
+        if last in ("rotate_right", "rotate_left") and len(args) == 2 and isinstance(args[0], AI) and isinstance(args[1], AI) \
+                and (name.startswith(("common_traits::Integer::", "core::num::", "std::num::")) or re.match(r"[ui]\d+::|usize::|isize::", name)):
+            x, k = args
+            w = TY[x.ty][0]
+            kc = k.const()
+            if kc is not None and x.lo >= 0:
+                kc %= w
+                if last == "rotate_left":
+                    kc = (w - kc) % w
+                if kc == 0:
+                    return x
+                c = x.const()
+                if c is not None:
+                    v = ((c >> kc) | (c << (w - kc))) & ((1 << w) - 1)
+                    return AI(x.ty, v, v)
+                if x.hi < (1 << kc):                 # only the rotated-out bits are set: a left shift by w - k
+                    return self.arith("Shl", x, AI("u32", w - kc, w - kc), x.ty)
+                if x.aff is not None and self.exact(x) and x.aff[0] % (1 << kc) == 0 and x.aff[1] % (1 << kc) == 0:
+                    return self.arith("Shr", x, AI("u32", kc, kc), x.ty)      # low k bits clear: a right shift
+            return self.top(x.ty)
+        if last in ("to_be", "to_le", "from_be", "from_le", "swap_bytes") and len(args) == 1 and isinstance(args[0], AI) \
+                and (name.startswith(("common_traits::Integer::", "core::num::", "std::num::")) or re.match(r"[ui]\d+::|usize::|isize::", name)):
+            x = args[0]
+            w = TY[x.ty][0]
+            if last in ("to_le", "from_le") or w == 8:            # the analysis fixes a little-endian target (as the facts do)
+                return x
+            c = x.const()
+            if c is not None and c >= 0:
+                v = int.from_bytes(c.to_bytes(w // 8, "little"), "big")
+                return AI(x.ty, v, v) if v <= tmax(x.ty) else self.top(x.ty)
+            return self.top(x.ty)
         if name in ("common_traits::UnsignedInt::to_signed", "common_traits::SignedInt::to_unsigned") and isinstance(args[0], AI):
             # contract of the dependency: reinterpretation of the same bits in the same-width type of the other signedness
             x = args[0]
@@ -1759,6 +1800,19 @@ class Interp:
                     raise Panic("arithmetic overflow in %s" % name)
                 return r
             return self.arith(op, x, y, x.ty)
+        # compound assignment through the operator traits (generic words): `*a op= b`
+        m = re.match(r"std::ops::(Shl|Shr|BitAnd|BitOr|BitXor|Add|Sub|Mul|Div|Rem)Assign::(\w+)$", name)
+        if m and len(args) == 2 and isinstance(args[0], Ref):
+            cur = self.project(args[0].frame, args[0].frame.locals.get(args[0].local), args[0].proj)
+            rhs = args[1]
+            if isinstance(rhs, Ref):
+                rhs = self.project(rhs.frame, rhs.frame.locals.get(rhs.local), rhs.proj)
+            if isinstance(cur, AI) and isinstance(rhs, AI):
+                r = self.std_call("std::ops::%s::%s" % (m.group(1), m.group(2).replace("_assign", "")), [cur, rhs], fargs, fr, t)
+                if r is None or r is NotImplemented:
+                    raise Unsupported(name)
+                self.write_proj(args[0].frame, args[0].local, list(args[0].proj), r)
+                return UNIT
         m = re.match(r"std::ops::(Neg|Not)::(\w+)$", name)
         if m and isinstance(args[0], AI):
             return self.unop(m.group(1), args[0], args[0].ty)
